@@ -57,6 +57,15 @@ check("C15", "exploration",
       "Trusted: the four-word parameter model and the statement's definition of stream equality.",
       "deterministic simulation: seeded operation histories + state model", "6.4")
 
+check("C16", "fault_enumeration",
+      "Every byte-slice argument of every public operation is placed by a guard-page arena the simulator owns; the injected fault is the page fault (or a changed canary) that an access outside the slice causes. Both tiers enumerate completely the 3 placements x 64 start alignments / length residues for every (operation kind, buffered-prefix class, length class, simulated host level) combination; data contents are sampled. The result must equal the same call on an ordinary buffer and the process must survive.",
+      "Trusted: mmap/mprotect semantics of Linux; an out-of-slice READ that stays inside the mapped page is not observable (both edge placements are enumerated to minimise this); input slices are read-only pages. Vector code paths per host level through hook H1; explicit Machine types for vector byte I/O.",
+      "deterministic simulation with fault injection: simulator-owned buffer placement against unmapped pages, complete enumeration of placements/alignments", "6.7")
+check("C17", "exploration",
+      "The hashes' length counters are treated as clocks: hook H2 jumps them (in the implementation and in an independent reference hash alike) next to every word boundary of each format, the boundary is then crossed by update or by the padding, digests are compared and the counter is read back after every step. The first boundary of every family is additionally crossed for real by streaming up to 4 GiB through implementation and reference in lock-step.",
+      "Trusted: four reference hashes written from the specifications (validated against all KAT files of the repository at every start); hook H2 only reads/overwrites the counter field. Jumped states carry a real chaining value but are not reachable by a feasible real stream.",
+      "deterministic simulation: simulated clock (length counter) jumps + independent reference models + real streaming across the first boundary", "6.8")
+
 def main():
     m = dict(
         version=1,
@@ -65,7 +74,7 @@ def main():
             guard="cryptocorrosion_verif",
             enable="RUSTFLAGS='--cfg cryptocorrosion_verif --cfg zerocopy_derive_union_into_bytes' (passed by ./check to every worker build; path dependencies on /repo's working tree)",
             baseline_off_cmd="cd /repo && cargo test --workspace --no-fail-fast --offline",
-            source_commits=["dd69e24"],
+            source_commits=["dd69e24", "8745fa8"],
             add_only=True,
         ),
         engines=[dict(name="simworker", path="sim/", serves_properties=sorted(CHECKS),
@@ -75,7 +84,7 @@ def main():
         notes="Exit codes: 0 held, 1 VIOLATION line, 2 harness error. VERIF_SEED selects the exploration (default 1). Known findings: known_findings.json. See DESIGN.md.",
     )
     claimed = set(CHECKS)
-    pending = [p for p in ["C16","C17","C18"] if p not in claimed]
+    pending = [p for p in ["C18"] if p not in claimed]
     for p in pending:
         m["not_applicable"].append(dict(property_id=p, reason="applicable (see DESIGN.md) but its check is not built yet in this commit; not claimed until it is"))
     m["not_applicable"].sort(key=lambda e: e["property_id"])
